@@ -114,7 +114,17 @@ pub async fn run_device<C: Crypto>(
         matter.run(crypto, ep.clone(), ep.clone(), ep.clone()),
         responder.run::<4, 4>(),
         im.run(),
-        matter.run_persist_resumption(&kv, embassy_time::Duration::from_millis(500)),
+        async {
+            // The resumption cache is an optional cache: a failing flush must not take the
+            // device down (how an application treats the error of this background task is
+            // its own choice; none of the examples runs it). Keep flushing.
+            loop {
+                let _ = matter
+                    .run_persist_resumption(&kv, embassy_time::Duration::from_millis(500))
+                    .await;
+                embassy_time::Timer::after(embassy_time::Duration::from_millis(1000)).await;
+            }
+        },
     )
     .coalesce()
     .await;
